@@ -13,7 +13,9 @@ from harness import common as C
 from harness import em_common as E
 from harness.c02 import pc_tokens, PARSEC, EM10
 
-RULE = ('pickle k-tables (1-20 g-points, weights >= 0 summing to 1, 1-3 molecules sharing the weights) loaded by the '
+RULE = ('pickle k-tables (1-20 g-points, weights >= 0 summing to 1, 1-3 molecules sharing the weights; quota with '
+        'per-molecule wavenumber grids resampled onto the model grid; reuse stream with parameter changes and '
+        'k-table set swaps on one model object) loaded by the '
         'real PickleKTable/KTableCache; family in {transmission (absorption only or + CIA), emission (absorption, '
         'optional CIA)}; table kind in {degenerate (identical across g), generic}; opacity regime in {zero, thin, mid, '
         'saturated, mixed}; 1-30 layers, 1-8 wavenumbers, ngauss 1-6; distinct non-trivial = distinct (family, kind, '
@@ -74,6 +76,26 @@ def gen_case(rng, k, thorough=False):
             kc = base[..., None] * 10 ** spread
         gases[nm] = float(10 ** rng.uniform(-7, -2))
         tables[nm] = dict(tg=tg, pg=pg, kcoeff=kc)
+    # quota: further molecules tabulated on their own (shorter, offset) wavenumber grid, so that the model grid is the
+    # first molecule's and the others are resampled onto it (ends inside, on, and beyond the model grid)
+    multigrid = ngas >= 2 and nwn >= 3 and (k // 28) % 2 == 0
+    if multigrid:
+        span = float(wn[-1] - wn[0])
+        for nm in names[1:]:
+            n2 = int(rng.integers(2, nwn))
+            inside = rng.uniform(wn[0], wn[-1], size=2)
+            rest = rng.uniform(wn[0] - 0.3 * span, wn[-1] + 0.3 * span, size=n2 - 2)
+            g2 = np.concatenate([inside, rest])
+            if rng.random() < 0.3:
+                g2[0] = wn[int(rng.integers(0, nwn))]          # a shared grid point
+            g2 = np.unique(np.round(g2, 3))
+            if len(g2) < 2:
+                continue
+            t = tables[nm]
+            kc = np.asarray(t['kcoeff'], float)
+            idx = np.sort(rng.choice(nwn, size=len(g2), replace=len(g2) > nwn))
+            t['kcoeff'] = kc[:, :, idx, :] * 10 ** rng.uniform(-0.3, 0.3, size=(1, 1, len(g2), 1))
+            t['wn'] = g2
     cia = None
     if rng.random() < 0.35:
         pair = 'H2-He' if rng.random() < 0.5 else 'H2-H2'
@@ -85,7 +107,7 @@ def gen_case(rng, k, thorough=False):
                 pmin=float(10 ** rng.uniform(-3, 1)), pmax=float(10 ** rng.uniform(4, 7)), T=T, gases=gases,
                 ngauss=int(rng.integers(1, 7)), cia=[cia['pair']] if cia else [])
     return dict(family=family, tkind=tkind, regime=regime, tclass=tclass, spec=spec, wn=wn, tables=tables,
-                weights=w, cia=cia)
+                weights=w, cia=cia, multigrid=bool(multigrid))
 
 
 def xsec_tables(c, how):
@@ -94,8 +116,8 @@ def xsec_tables(c, how):
     out = {}
     for nm, t in c['tables'].items():
         kc = np.asarray(t['kcoeff'], float)
-        tab = kc[..., 0] if how == 'first' else (kc * w).sum(axis=-1)
-        out[nm] = dict(tg=t['tg'], pg=t['pg'], tab=tab)
+        tab = kc[..., 0] if how == 'first' else ((kc * w).sum(axis=-1) if how == 'avg' else kc[..., int(how)])
+        out[nm] = dict(tg=t['tg'], pg=t['pg'], tab=tab, wn=t.get('wn'))
     return out
 
 
@@ -119,6 +141,15 @@ def eval_case(ctx, c, scratch):
     except Exception as e:
         ctx.violation('raises:xsec:' + fam, 'cross-section run raised %r on a valid input' % (e,), case)
         return
+    judge(ctx, c, case, small, ok, ox, degenerate)
+
+
+def judge(ctx, c, case, small, ok, ox, degenerate, kp=''):
+    """all comparisons and predicates for one observed k-mode run `ok` (and the cross-section run `ox` on the same
+    numbers) of the case `c`, whose tables / weights / spec hold the values the run must reflect"""
+    fam, spec = c['family'], c['spec']
+    w = np.asarray(c['weights'], float)
+    ng = len(w)
     nus = ok['grid']
     nwn = len(nus)
     n = len(ok['dens'])
@@ -171,34 +202,49 @@ def eval_case(ctx, c, scratch):
     ctx.bucket('regime:' + str(c.get('regime')))
     ctx.bucket('ng:' + ('1' if ng == 1 else ('2-5' if ng <= 5 else ('6-12' if ng <= 12 else '13-20'))))
     ctx.bucket('cia:' + str(bool(c.get('cia'))))
-    predicates(ctx, c, case, ok, ox, degenerate)
+    ctx.bucket('grids:' + ('per-molecule' if c.get('multigrid') else 'shared'))
+    predicates(ctx, c, case, ok, ox, degenerate, kp)
 
 
-def predicates(ctx, c, case, ok, ox, degenerate):
+def predicates(ctx, c, case, ok, ox, degenerate, kp=''):
     fam = c['family']
     if not np.all(np.isfinite(ok['flux'])):
-        ctx.violation('nonfinite:' + fam, 'k-mode spectrum not finite on a valid input', case, dict(flux=ok['flux']))
+        ctx.violation(kp + 'nonfinite:' + fam, 'k-mode spectrum not finite on a valid input', case, dict(flux=ok['flux']))
         return
     if fam == 'transmission':
         tk, tx = ok['tau'], ox['tau']
         if np.any(tk < 0) or np.any(tk > 1 + 1e-12) or np.any(~np.isfinite(tk)):
-            ctx.violation('transmittance-unit-interval', 'k-mode transmittance outside [0,1]', case,
+            ctx.violation(kp + 'transmittance-unit-interval', 'k-mode transmittance outside [0,1]', case,
                           dict(min=float(np.min(tk)), max=float(np.max(tk))))
         if degenerate:
             if not C.close(tk.ravel(), tx.ravel(), rel=1e-8, abs_=1e-300):
-                ctx.violation('transmission-ktable-vs-xsec', 'degenerate k-table transmittance differs from the '
+                ctx.violation(kp + 'transmission-ktable-vs-xsec', 'degenerate k-table transmittance differs from the '
                               'cross-section run on the same numbers', case, dict(k=tk, xsec=tx))
             if not C.close(ok['flux'], ox['flux'], rel=1e-8):
-                ctx.violation('transmission-ktable-vs-xsec', 'degenerate k-table transit depth differs from the '
+                ctx.violation(kp + 'transmission-ktable-vs-xsec', 'degenerate k-table transit depth differs from the '
                               'cross-section run on the same numbers', case, dict(k=ok['flux'], xsec=ox['flux']))
-        elif not c.get('cia'):
+        if not degenerate and not c.get('cia') and len(c['weights']) <= 4:
+            # general half: the path transmittance is the weight-averaged exponential, i.e. sum_g w_g times the
+            # cross-section-mode transmittance obtained from the g-th coefficient alone
+            w = np.asarray(c['weights'], float)
+            try:
+                tg_ = [E.run_model('transmission', c['spec'], c['wn'], xsec_tables(c, g), None, 'xsec')['tau']
+                       for g in range(len(w))]
+                mean = sum(wg * t for wg, t in zip(w, tg_))
+                ctx.bucket('weighted-mean-checked')
+                if not C.close(tk.ravel(), mean.ravel(), rel=1e-8, abs_=1e-300):
+                    ctx.violation(kp + 'transmittance-weighted-mean', 'k-mode path transmittance is not sum_g w_g '
+                                  'exp(-tau_g) of the per-g cross-section runs', case, dict(k=tk, mean=mean))
+            except Exception as e:
+                ctx.violation(kp + 'raises:xsec:transmission', 'per-g cross-section run raised %r' % (e,), case)
+        if not degenerate and not c.get('cia'):
             # Jensen: transmittance >= transmittance of the weight-averaged coefficient (absorption only: with a
             # second contribution the tau > 10 early exit may skip it in one run and not in the other)
             if np.any(tk < tx * (1 - 1e-8) - 1e-300):
-                ctx.violation('transmittance-jensen', 'k-mode transmittance below the transmittance of the '
+                ctx.violation(kp + 'transmittance-jensen', 'k-mode transmittance below the transmittance of the '
                               'weight-averaged coefficient', case, dict(k=tk, avg=tx))
             if np.any(ok['flux'] > ox['flux'] * (1 + 1e-9)):
-                ctx.violation('transmittance-jensen', 'k-mode transit depth above the depth of the weight-averaged '
+                ctx.violation(kp + 'transmittance-jensen', 'k-mode transit depth above the depth of the weight-averaged '
                               'coefficient', case, dict(k=ok['flux'], avg=ox['flux']))
     else:
         nus = ok['grid']
@@ -207,12 +253,12 @@ def predicates(ctx, c, case, ok, ox, degenerate):
         bmin = E.planck_np(nus, float(T.min())) * fac
         bmax = E.planck_np(nus, float(T.max())) * fac
         if np.any(ok['flux'] < bmin * (1 - 1e-8) - 1e-12 * bmax) or np.any(ok['flux'] > bmax * (1 + 1e-8)):
-            ctx.violation('emission-ktable-hot-cold', 'k-mode eclipse spectrum outside the blackbody ratios of the '
+            ctx.violation(kp + 'emission-ktable-hot-cold', 'k-mode eclipse spectrum outside the blackbody ratios of the '
                           'coldest/hottest layer', case, dict(flux=ok['flux'], cold=bmin, hot=bmax))
         if float(T.max()) == float(T.min()):
             ratio = ok['flux'] / (E.planck_np(nus, float(T[0])) * fac)
             if np.any(np.abs(ratio - 1) > 1e-8):
-                ctx.violation('emission-ktable-isothermal', 'isothermal k-mode atmosphere does not return '
+                ctx.violation(kp + 'emission-ktable-isothermal', 'isothermal k-mode atmosphere does not return '
                               'B(T)/B(T*)(Rp/Rs)^2', case, dict(ratio=ratio))
         if degenerate:
             el = E.layer_elements([(0, ox['sigma_abs'])] + list(ox['nonmol']), ox['dz'], ox['dens'])
@@ -221,7 +267,7 @@ def predicates(ctx, c, case, ok, ox, degenerate):
             # rounding floor: each layer term B_l*(exp(-lt)-exp(-dt)) carries an absolute error ~1e-16*B_l
             for a, b, bd, fl in zip(ok['flux'], ox['flux'], band, 1e-12 * bmax):
                 if not (C.close(a, b, rel=1e-8, abs_=fl) or abs(a - b) <= bd * (1 + 1e-6) + 1e-8 * abs(b) + fl):
-                    ctx.violation('emission-ktable-vs-xsec', 'degenerate k-table eclipse spectrum differs from the '
+                    ctx.violation(kp + 'emission-ktable-vs-xsec', 'degenerate k-table eclipse spectrum differs from the '
                                   'cross-section run on the same numbers (beyond the licensed clamp band)', case,
                                   dict(k=ok['flux'], xsec=ox['flux'], band=band))
                     break
@@ -264,24 +310,24 @@ def malformed(ctx, scratch):
             ctx.malformed_outcome(tag + type(e).__name__)
 
 
-def reuse_case(ctx, c, scratch, nsteps=2):
-    """k-table mode, one model object: model() -> change a parameter through the public setters -> model() again;
-    the spectrum must equal that of a freshly built k-mode model with the new values"""
+def reuse_case(ctx, c, scratch, nsteps=3):
+    """k-table mode, one model object: model() -> change a parameter through the public setters, or replace the
+    k-table set (same molecules and number of g-points, different weights; new files, KTableCache cleared and
+    re-pointed) -> model() again.  After every step the spectrum must equal that of a freshly built k-mode model;
+    after a table swap the full set of comparisons / predicates is judged against the NEW tables and weights."""
     rng = ctx.rng
-    kind = 'transmission' if c['family'] == 'transmission' else 'emission'
-    spec = dict(c['spec'], gases=dict(c['spec']['gases']))
-    w = np.asarray(c['weights'], float)
-    wn = np.asarray(c['wn'], float)
+    fam = c['family']
+    kind = 'transmission' if fam == 'transmission' else 'emission'
+    c = dict(c, spec=dict(c['spec'], gases=dict(c['spec']['gases'])),
+             tables={nm: dict(t) for nm, t in c['tables'].items()})
+    spec = c['spec']
     with E.CacheState():
-        E.install_ktables(scratch, {nm: (t['tg'], t['pg'], np.asarray(t['kcoeff'], float), wn, w)
-                                    for nm, t in c['tables'].items()})
-        cias = [E.mem_cia(c['cia']['pair'], c['cia']['tg'], np.asarray(c['cia']['tab'], float), wn)] if c.get('cia') else []
-        E.install_cia(cias)
+        E.install_tables(c['wn'], c['tables'], c.get('cia'), 'ktables', scratch, c['weights'])
         try:
             m = E.build_model(kind, dict(spec))
             m.model()
         except Exception as e:
-            ctx.violation('raises:ktables:' + c['family'], 'k-table run raised %r on a valid input' % (e,), c)
+            ctx.violation('raises:ktables:' + fam, 'k-table run raised %r on a valid input' % (e,), c)
             return
         params = ['star_temperature', 'planet_radius', 'planet_mass', 'gas', 'pmax']
         if kind == 'emission':
@@ -289,8 +335,18 @@ def reuse_case(ctx, c, scratch, nsteps=2):
         if np.ndim(spec['T']) == 0:
             params += ['T', 'T']
         for step in range(nsteps):
-            p = str(rng.choice(params))
-            if p == 'star_temperature':
+            p = 'ktable_swap' if step == 0 else str(rng.choice(params + ['ktable_swap']))
+            if p == 'ktable_swap':
+                ng = len(c['weights'])
+                w2 = rng.random(ng) + 0.02
+                w2 = w2 / w2.sum() if ng > 1 else np.array([1.0])
+                c['weights'] = w2
+                if rng.random() < 0.5:
+                    for t in c['tables'].values():
+                        kc = np.asarray(t['kcoeff'], float)
+                        t['kcoeff'] = kc * 10 ** rng.uniform(-0.5, 0.5, size=(1, 1, kc.shape[2], 1))
+                E.install_tables(c['wn'], c['tables'], c.get('cia'), 'ktables', scratch, w2)
+            elif p == 'star_temperature':
                 spec['ts'] = float(rng.uniform(3000, 9000))
                 m.star.temperature = spec['ts']
             elif p == 'planet_radius':
@@ -312,19 +368,37 @@ def reuse_case(ctx, c, scratch, nsteps=2):
             else:
                 spec['T'] = float(rng.uniform(300, 2800))
                 m['T'] = spec['T']
-            case = dict(c, spec=dict(spec, gases=dict(spec['gases'])), reuse=dict(step=step, changed=p))
+            case = dict(c, spec=dict(spec, gases=dict(spec['gases'])),
+                        tables={nm: dict(t) for nm, t in c['tables'].items()}, weights=np.array(c['weights'], float),
+                        reuse=dict(step=step, changed=p))
             try:
-                flux = np.array(m.model()[1], float).ravel()
-                fresh = np.array(E.build_model(kind, dict(case['spec'])).model()[1], float).ravel()
+                ok = E.observe_model(m, kind)
+                fresh = E.observe_model(E.build_model(kind, dict(case['spec'])), kind)
             except Exception as e:
-                ctx.violation('stale-state:raises:' + p, 'k-mode model raised %r after a parameter change' % (e,), case)
+                ctx.violation('stale-state:raises:' + p, 'k-mode model raised %r after a change' % (e,), case)
                 return
-            ctx.case(key=None, bucket='reuse:' + p)
+            ctx.bucket('reuse:' + p)
             ctx.disagreements_checked += 1
-            if flux.shape != fresh.shape or not C.close(flux, fresh, rel=1e-9):
-                ctx.violation('stale-state:differs-from-fresh:' + p, 'a reused k-mode model object does not return the '
-                              'spectrum of a freshly built model after changing ' + p, case,
-                              dict(reused=flux, fresh=fresh))
+            if ok['flux'].shape != fresh['flux'].shape or not C.close(ok['flux'], fresh['flux'], rel=1e-9) or \
+                    not C.close(ok['tau'].ravel(), fresh['tau'].ravel(), rel=1e-9, abs_=1e-300):
+                ctx.violation('stale-state:differs-from-fresh:' + p, 'a reused k-mode model object does not return '
+                              'the spectrum of a freshly built model after changing ' + p, case,
+                              dict(reused=ok['flux'], fresh=fresh['flux']))
+            if p == 'ktable_swap':
+                degenerate = all(np.all(np.asarray(t['kcoeff'], float) == np.asarray(t['kcoeff'], float)[..., :1])
+                                 for t in case['tables'].values())
+                try:
+                    ox = E.run_model(kind, case['spec'], case['wn'], xsec_tables(case, 'first' if degenerate else 'avg'),
+                                     case.get('cia'), 'xsec')
+                except Exception as e:
+                    ctx.violation('stale-state:raises:xsec', 'cross-section run raised %r' % (e,), case)
+                    return
+                small = dict(family=fam, tkind=c.get('tkind'), regime=c.get('regime'), ng=len(case['weights']),
+                             nlayers=spec['nlayers'], nwn=len(c['wn']), cia=bool(c.get('cia')), reuse_step=step,
+                             changed=p)
+                judge(ctx, case, dict(case, small=small), small, ok, ox, degenerate, kp='stale-state:')
+            else:
+                ctx.case(key=None)
 
 
 def run(ctx):
